@@ -8,7 +8,8 @@
     else (spellings, surrounding text, values) is universally quantified. *)
 From Coq Require Import List ZArith NArith QArith Qabs Bool String.
 From RG Require Import Base.Str Base.Num Gen.GenUnits Model.Recipe Model.Units Spec.UnitsRef
-  Proofs.UnitsScan Proofs.UnitsTable Proofs.UnitsAlt Proofs.UnitsTail Proofs.RecipeB64 Proofs.UnitsFloat.
+  Proofs.UnitsScan Proofs.UnitsTable Proofs.UnitsAlt Proofs.UnitsTail Proofs.RecipeB64 Proofs.UnitsFloat
+  Proofs.UnitsB64 Proofs.UnitsEqualFloat.
 Import ListNotations.
 
 (** ** The table *)
@@ -183,6 +184,44 @@ Theorem C12_equal_amounts_exact_partial : forall a b ua ub f q,
 Proof. exact equal_amounts_exact. Qed.
 Print Assumptions C12_equal_amounts_exact_partial.
 
+(** Float conversion paths (lb <-> g, cup, pint ...): [f] is the factor the
+    code computes (a float), values are int / Fraction in 1e-6 .. 1e6.
+    SOUND: amounts that are equal w.r.t. that factor compare equal - the three
+    roundings (float(value), the product, float(other value)) stay within
+    1e-13 relative, far inside math.isclose's 1e-9.  Uses a range-free error
+    bound for [b64] (Proofs/UnitsB64.v: |b64 x - x| <= |x| 2^-53 + 2^-1075). *)
+Theorem C12_equal_amounts_float_sound : forall a b ua ub f,
+  q_unit a = Some ua -> q_unit b = Some ub ->
+  convert_between (py_lower ub) (py_lower ua) = Ok f -> is_float f = true ->
+  is_float (q_value a) = false -> is_float (q_value b) = false ->
+  ((1 # 1000000) <= to_Q (q_value a))%Q -> (to_Q (q_value a) <= 1000000)%Q ->
+  ((1 # 1000000) <= to_Q f)%Q -> (to_Q f <= 1000000)%Q ->
+  ((1 # 1000000) <= to_Q (q_value b) * to_Q f)%Q -> (to_Q (q_value b) * to_Q f <= 1000000)%Q ->
+  (to_Q (q_value a) == to_Q (q_value b) * to_Q f)%Q ->
+  has_equal_value_to a b = Ok true.
+Proof. exact float_sound. Qed.
+Print Assumptions C12_equal_amounts_float_sound.
+
+(** COMPLETE (partial): amounts that differ by at least 2e-9 of the larger
+    one compare unequal.  PARTIAL because of the restrictions shared with the
+    sound direction: int / Fraction values (float VALUES, e.g. "2.5 lb", add
+    no new idea but are not covered), magnitudes 1e-6 .. 1e6, amounts stated
+    w.r.t. the code's own factor [f] (its distance to the legal constant is
+    [C12_factor_physical]); between 1.1e-9 and 2e-9 relative nothing is
+    claimed. *)
+Theorem C12_equal_amounts_float_complete_partial : forall a b ua ub f,
+  q_unit a = Some ua -> q_unit b = Some ub ->
+  convert_between (py_lower ub) (py_lower ua) = Ok f -> is_float f = true ->
+  is_float (q_value a) = false -> is_float (q_value b) = false ->
+  ((1 # 1000000) <= to_Q (q_value a))%Q -> (to_Q (q_value a) <= 1000000)%Q ->
+  ((1 # 1000000) <= to_Q f)%Q -> (to_Q f <= 1000000)%Q ->
+  ((1 # 1000000) <= to_Q (q_value b) * to_Q f)%Q -> (to_Q (q_value b) * to_Q f <= 1000000)%Q ->
+  (to_Q (q_value a) * (2 # 1000000000) <= Qabs (to_Q (q_value a) - to_Q (q_value b) * to_Q f))%Q ->
+  (to_Q (q_value b) * to_Q f * (2 # 1000000000) <= Qabs (to_Q (q_value a) - to_Q (q_value b) * to_Q f))%Q ->
+  has_equal_value_to a b = Ok false.
+Proof. exact float_complete. Qed.
+Print Assumptions C12_equal_amounts_float_complete_partial.
+
 Theorem C12_unequal_across_kinds : forall a b ua ub,
   q_unit a = Some ua -> q_unit b = Some ub ->
   In (py_lower ua) all_names -> In (py_lower ub) all_names ->
@@ -231,6 +270,14 @@ Example C12_ex_equal :
   has_equal_value_to (mkQ (NInt 1) (Some (s "g")) [] []) (mkQ (NInt 1) (Some (s "ml")) [] []) = Ok false /\
   (* tolerance: distinct exactly-representable amounts within 1e-9 compare equal (documented tolerance) *)
   has_equal_value_to (mkQ (NInt 10000000000) (Some (s "g")) [] []) (mkQ (NInt 10000000001) (Some (s "g")) [] []) = Ok true.
+Proof. vm_compute. repeat split; reflexivity. Qed.
+
+(** 1 kg against 2.2046... lb written as the exact reciprocal is outside the theorem (float value); an
+    instance that satisfies every hypothesis of the float theorems: 453 g vs 1 lb (unequal), factor lb -> g *)
+Example C12_ex_float_path :
+  convert_between (s "lb") (s "g") = Ok (NFloat 7979681361367579 (-44)) /\
+  has_equal_value_to (mkQ (NInt 453) (Some (s "g")) [] []) (mkQ (NInt 1) (Some (s "lb")) [] []) = Ok false /\
+  has_equal_value_to (mkQ (NFrac 45359237 100000) (Some (s "g")) [] []) (mkQ (NInt 1) (Some (s "LB")) [] []) = Ok true.
 Proof. vm_compute. repeat split; reflexivity. Qed.
 
 Example C12_ex_alt :
